@@ -154,7 +154,7 @@ pub(crate) fn cell_int<T: IntSrc>(v: T, node: &'static SchemaNode<'static>, kind
 
 // ---- generated: integer presentation x schema kind cell matrix (C02, and the 'succeeds' half of C01) ----
 
-// @harness props=C02,C01 tier=thorough timeout=900
+// @harness props=C02 also=C01 tier=thorough timeout=900
 // @bound every value of i8 presented through serialize_i8 against node int (IntKind::Int); output <= 40 bytes; unwind 18 >= 16 decimal bytes + 2
 #[kani::proof]
 #[kani::unwind(18)]
@@ -163,7 +163,7 @@ fn c02_int_i8_int() {
 	cell_int::<i8>(kani::any(), &nodes::INT, IntKind::Int);
 }
 
-// @harness props=C02,C01 tier=thorough timeout=900
+// @harness props=C02 also=C01 tier=thorough timeout=900
 // @bound every value of i16 presented through serialize_i16 against node int (IntKind::Int); output <= 40 bytes; unwind 18 >= 16 decimal bytes + 2
 #[kani::proof]
 #[kani::unwind(18)]
@@ -172,7 +172,7 @@ fn c02_int_i16_int() {
 	cell_int::<i16>(kani::any(), &nodes::INT, IntKind::Int);
 }
 
-// @harness props=C02,C01 tier=quick timeout=900
+// @harness props=C02 also=C01 tier=quick timeout=900
 // @bound every value of i32 presented through serialize_i32 against node int (IntKind::Int); output <= 40 bytes; unwind 18 >= 16 decimal bytes + 2
 #[kani::proof]
 #[kani::unwind(18)]
@@ -181,7 +181,7 @@ fn c02_int_i32_int() {
 	cell_int::<i32>(kani::any(), &nodes::INT, IntKind::Int);
 }
 
-// @harness props=C02,C01 tier=quick timeout=900
+// @harness props=C02 also=C01 tier=quick timeout=900
 // @bound every value of i64 presented through serialize_i64 against node int (IntKind::Int); output <= 40 bytes; unwind 18 >= 16 decimal bytes + 2
 #[kani::proof]
 #[kani::unwind(18)]
@@ -190,7 +190,7 @@ fn c02_int_i64_int() {
 	cell_int::<i64>(kani::any(), &nodes::INT, IntKind::Int);
 }
 
-// @harness props=C02,C01 tier=quick timeout=900
+// @harness props=C02 also=C01 tier=quick timeout=900
 // @bound every value of i128 presented through serialize_i128 against node int (IntKind::Int); output <= 40 bytes; unwind 18 >= 16 decimal bytes + 2
 #[kani::proof]
 #[kani::unwind(18)]
@@ -199,7 +199,7 @@ fn c02_int_i128_int() {
 	cell_int::<i128>(kani::any(), &nodes::INT, IntKind::Int);
 }
 
-// @harness props=C02,C01 tier=quick timeout=900
+// @harness props=C02 also=C01 tier=quick timeout=900
 // @bound every value of u8 presented through serialize_u8 against node int (IntKind::Int); output <= 40 bytes; unwind 18 >= 16 decimal bytes + 2
 #[kani::proof]
 #[kani::unwind(18)]
@@ -208,7 +208,7 @@ fn c02_int_u8_int() {
 	cell_int::<u8>(kani::any(), &nodes::INT, IntKind::Int);
 }
 
-// @harness props=C02,C01 tier=thorough timeout=900
+// @harness props=C02 also=C01 tier=thorough timeout=900
 // @bound every value of u16 presented through serialize_u16 against node int (IntKind::Int); output <= 40 bytes; unwind 18 >= 16 decimal bytes + 2
 #[kani::proof]
 #[kani::unwind(18)]
@@ -217,7 +217,7 @@ fn c02_int_u16_int() {
 	cell_int::<u16>(kani::any(), &nodes::INT, IntKind::Int);
 }
 
-// @harness props=C02,C01 tier=thorough timeout=900
+// @harness props=C02 also=C01 tier=thorough timeout=900
 // @bound every value of u32 presented through serialize_u32 against node int (IntKind::Int); output <= 40 bytes; unwind 18 >= 16 decimal bytes + 2
 #[kani::proof]
 #[kani::unwind(18)]
@@ -226,7 +226,7 @@ fn c02_int_u32_int() {
 	cell_int::<u32>(kani::any(), &nodes::INT, IntKind::Int);
 }
 
-// @harness props=C02,C01 tier=quick timeout=900
+// @harness props=C02 also=C01 tier=quick timeout=900
 // @bound every value of u64 presented through serialize_u64 against node int (IntKind::Int); output <= 40 bytes; unwind 18 >= 16 decimal bytes + 2
 #[kani::proof]
 #[kani::unwind(18)]
@@ -235,7 +235,7 @@ fn c02_int_u64_int() {
 	cell_int::<u64>(kani::any(), &nodes::INT, IntKind::Int);
 }
 
-// @harness props=C02,C01 tier=thorough timeout=900
+// @harness props=C02 also=C01 tier=thorough timeout=900
 // @bound every value of u128 presented through serialize_u128 against node int (IntKind::Int); output <= 40 bytes; unwind 18 >= 16 decimal bytes + 2
 #[kani::proof]
 #[kani::unwind(18)]
@@ -244,7 +244,7 @@ fn c02_int_u128_int() {
 	cell_int::<u128>(kani::any(), &nodes::INT, IntKind::Int);
 }
 
-// @harness props=C02,C01 tier=thorough timeout=900
+// @harness props=C02 also=C01 tier=thorough timeout=900
 // @bound every value of i8 presented through serialize_i8 against node long (IntKind::Long); output <= 40 bytes; unwind 18 >= 16 decimal bytes + 2
 #[kani::proof]
 #[kani::unwind(18)]
@@ -253,7 +253,7 @@ fn c02_int_i8_long() {
 	cell_int::<i8>(kani::any(), &nodes::LONG, IntKind::Long);
 }
 
-// @harness props=C02,C01 tier=thorough timeout=900
+// @harness props=C02 also=C01 tier=thorough timeout=900
 // @bound every value of i16 presented through serialize_i16 against node long (IntKind::Long); output <= 40 bytes; unwind 18 >= 16 decimal bytes + 2
 #[kani::proof]
 #[kani::unwind(18)]
@@ -262,7 +262,7 @@ fn c02_int_i16_long() {
 	cell_int::<i16>(kani::any(), &nodes::LONG, IntKind::Long);
 }
 
-// @harness props=C02,C01 tier=quick timeout=900
+// @harness props=C02 also=C01 tier=quick timeout=900
 // @bound every value of i32 presented through serialize_i32 against node long (IntKind::Long); output <= 40 bytes; unwind 18 >= 16 decimal bytes + 2
 #[kani::proof]
 #[kani::unwind(18)]
@@ -271,7 +271,7 @@ fn c02_int_i32_long() {
 	cell_int::<i32>(kani::any(), &nodes::LONG, IntKind::Long);
 }
 
-// @harness props=C02,C01 tier=quick timeout=900
+// @harness props=C02 also=C01 tier=quick timeout=900
 // @bound every value of i64 presented through serialize_i64 against node long (IntKind::Long); output <= 40 bytes; unwind 18 >= 16 decimal bytes + 2
 #[kani::proof]
 #[kani::unwind(18)]
@@ -280,7 +280,7 @@ fn c02_int_i64_long() {
 	cell_int::<i64>(kani::any(), &nodes::LONG, IntKind::Long);
 }
 
-// @harness props=C02,C01 tier=quick timeout=900
+// @harness props=C02 also=C01 tier=quick timeout=900
 // @bound every value of i128 presented through serialize_i128 against node long (IntKind::Long); output <= 40 bytes; unwind 18 >= 16 decimal bytes + 2
 #[kani::proof]
 #[kani::unwind(18)]
@@ -289,7 +289,7 @@ fn c02_int_i128_long() {
 	cell_int::<i128>(kani::any(), &nodes::LONG, IntKind::Long);
 }
 
-// @harness props=C02,C01 tier=quick timeout=900
+// @harness props=C02 also=C01 tier=quick timeout=900
 // @bound every value of u8 presented through serialize_u8 against node long (IntKind::Long); output <= 40 bytes; unwind 18 >= 16 decimal bytes + 2
 #[kani::proof]
 #[kani::unwind(18)]
@@ -298,7 +298,7 @@ fn c02_int_u8_long() {
 	cell_int::<u8>(kani::any(), &nodes::LONG, IntKind::Long);
 }
 
-// @harness props=C02,C01 tier=thorough timeout=900
+// @harness props=C02 also=C01 tier=thorough timeout=900
 // @bound every value of u16 presented through serialize_u16 against node long (IntKind::Long); output <= 40 bytes; unwind 18 >= 16 decimal bytes + 2
 #[kani::proof]
 #[kani::unwind(18)]
@@ -307,7 +307,7 @@ fn c02_int_u16_long() {
 	cell_int::<u16>(kani::any(), &nodes::LONG, IntKind::Long);
 }
 
-// @harness props=C02,C01 tier=thorough timeout=900
+// @harness props=C02 also=C01 tier=thorough timeout=900
 // @bound every value of u32 presented through serialize_u32 against node long (IntKind::Long); output <= 40 bytes; unwind 18 >= 16 decimal bytes + 2
 #[kani::proof]
 #[kani::unwind(18)]
@@ -316,7 +316,7 @@ fn c02_int_u32_long() {
 	cell_int::<u32>(kani::any(), &nodes::LONG, IntKind::Long);
 }
 
-// @harness props=C02,C01 tier=quick timeout=900
+// @harness props=C02 also=C01 tier=quick timeout=900
 // @bound every value of u64 presented through serialize_u64 against node long (IntKind::Long); output <= 40 bytes; unwind 18 >= 16 decimal bytes + 2
 #[kani::proof]
 #[kani::unwind(18)]
@@ -325,7 +325,7 @@ fn c02_int_u64_long() {
 	cell_int::<u64>(kani::any(), &nodes::LONG, IntKind::Long);
 }
 
-// @harness props=C02,C01 tier=thorough timeout=900
+// @harness props=C02 also=C01 tier=thorough timeout=900
 // @bound every value of u128 presented through serialize_u128 against node long (IntKind::Long); output <= 40 bytes; unwind 18 >= 16 decimal bytes + 2
 #[kani::proof]
 #[kani::unwind(18)]
@@ -334,7 +334,7 @@ fn c02_int_u128_long() {
 	cell_int::<u128>(kani::any(), &nodes::LONG, IntKind::Long);
 }
 
-// @harness props=C02,C01 tier=thorough timeout=900
+// @harness props=C02 also=C01 tier=thorough timeout=900
 // @bound every value of i64 presented through serialize_i64 against node date (IntKind::Int); output <= 40 bytes; unwind 18 >= 16 decimal bytes + 2
 #[kani::proof]
 #[kani::unwind(18)]
@@ -343,7 +343,7 @@ fn c02_int_i64_date() {
 	cell_int::<i64>(kani::any(), &nodes::DATE, IntKind::Int);
 }
 
-// @harness props=C02,C01 tier=thorough timeout=900
+// @harness props=C02 also=C01 tier=thorough timeout=900
 // @bound every value of u32 presented through serialize_u32 against node date (IntKind::Int); output <= 40 bytes; unwind 18 >= 16 decimal bytes + 2
 #[kani::proof]
 #[kani::unwind(18)]
@@ -352,7 +352,7 @@ fn c02_int_u32_date() {
 	cell_int::<u32>(kani::any(), &nodes::DATE, IntKind::Int);
 }
 
-// @harness props=C02,C01 tier=thorough timeout=900
+// @harness props=C02 also=C01 tier=thorough timeout=900
 // @bound every value of i64 presented through serialize_i64 against node time_millis (IntKind::Int); output <= 40 bytes; unwind 18 >= 16 decimal bytes + 2
 #[kani::proof]
 #[kani::unwind(18)]
@@ -361,7 +361,7 @@ fn c02_int_i64_time_millis() {
 	cell_int::<i64>(kani::any(), &nodes::TIME_MILLIS, IntKind::Int);
 }
 
-// @harness props=C02,C01 tier=thorough timeout=900
+// @harness props=C02 also=C01 tier=thorough timeout=900
 // @bound every value of u32 presented through serialize_u32 against node time_millis (IntKind::Int); output <= 40 bytes; unwind 18 >= 16 decimal bytes + 2
 #[kani::proof]
 #[kani::unwind(18)]
@@ -370,7 +370,7 @@ fn c02_int_u32_time_millis() {
 	cell_int::<u32>(kani::any(), &nodes::TIME_MILLIS, IntKind::Int);
 }
 
-// @harness props=C02,C01 tier=thorough timeout=900
+// @harness props=C02 also=C01 tier=thorough timeout=900
 // @bound every value of i64 presented through serialize_i64 against node time_micros (IntKind::Long); output <= 40 bytes; unwind 18 >= 16 decimal bytes + 2
 #[kani::proof]
 #[kani::unwind(18)]
@@ -379,7 +379,7 @@ fn c02_int_i64_time_micros() {
 	cell_int::<i64>(kani::any(), &nodes::TIME_MICROS, IntKind::Long);
 }
 
-// @harness props=C02,C01 tier=thorough timeout=900
+// @harness props=C02 also=C01 tier=thorough timeout=900
 // @bound every value of u32 presented through serialize_u32 against node time_micros (IntKind::Long); output <= 40 bytes; unwind 18 >= 16 decimal bytes + 2
 #[kani::proof]
 #[kani::unwind(18)]
@@ -388,7 +388,7 @@ fn c02_int_u32_time_micros() {
 	cell_int::<u32>(kani::any(), &nodes::TIME_MICROS, IntKind::Long);
 }
 
-// @harness props=C02,C01 tier=thorough timeout=900
+// @harness props=C02 also=C01 tier=thorough timeout=900
 // @bound every value of i64 presented through serialize_i64 against node ts_millis (IntKind::Long); output <= 40 bytes; unwind 18 >= 16 decimal bytes + 2
 #[kani::proof]
 #[kani::unwind(18)]
@@ -397,7 +397,7 @@ fn c02_int_i64_ts_millis() {
 	cell_int::<i64>(kani::any(), &nodes::TS_MILLIS, IntKind::Long);
 }
 
-// @harness props=C02,C01 tier=thorough timeout=900
+// @harness props=C02 also=C01 tier=thorough timeout=900
 // @bound every value of u32 presented through serialize_u32 against node ts_millis (IntKind::Long); output <= 40 bytes; unwind 18 >= 16 decimal bytes + 2
 #[kani::proof]
 #[kani::unwind(18)]
@@ -406,7 +406,7 @@ fn c02_int_u32_ts_millis() {
 	cell_int::<u32>(kani::any(), &nodes::TS_MILLIS, IntKind::Long);
 }
 
-// @harness props=C02,C01 tier=thorough timeout=900
+// @harness props=C02 also=C01 tier=thorough timeout=900
 // @bound every value of i64 presented through serialize_i64 against node ts_micros (IntKind::Long); output <= 40 bytes; unwind 18 >= 16 decimal bytes + 2
 #[kani::proof]
 #[kani::unwind(18)]
@@ -415,7 +415,7 @@ fn c02_int_i64_ts_micros() {
 	cell_int::<i64>(kani::any(), &nodes::TS_MICROS, IntKind::Long);
 }
 
-// @harness props=C02,C01 tier=thorough timeout=900
+// @harness props=C02 also=C01 tier=thorough timeout=900
 // @bound every value of u32 presented through serialize_u32 against node ts_micros (IntKind::Long); output <= 40 bytes; unwind 18 >= 16 decimal bytes + 2
 #[kani::proof]
 #[kani::unwind(18)]
@@ -424,7 +424,7 @@ fn c02_int_u32_ts_micros() {
 	cell_int::<u32>(kani::any(), &nodes::TS_MICROS, IntKind::Long);
 }
 
-// @harness props=C02,C01 tier=thorough timeout=900
+// @harness props=C02 also=C01 tier=thorough timeout=900
 // @bound every value of i8 presented through serialize_i8 against node enum2 (IntKind::Enum(2)); output <= 40 bytes; unwind 18 >= 16 decimal bytes + 2
 #[kani::proof]
 #[kani::unwind(18)]
@@ -434,7 +434,7 @@ fn c02_int_i8_enum2() {
 	cell_int::<i8>(kani::any(), e, IntKind::Enum(2));
 }
 
-// @harness props=C02,C01 tier=thorough timeout=900
+// @harness props=C02 also=C01 tier=thorough timeout=900
 // @bound every value of i16 presented through serialize_i16 against node enum2 (IntKind::Enum(2)); output <= 40 bytes; unwind 18 >= 16 decimal bytes + 2
 #[kani::proof]
 #[kani::unwind(18)]
@@ -444,7 +444,7 @@ fn c02_int_i16_enum2() {
 	cell_int::<i16>(kani::any(), e, IntKind::Enum(2));
 }
 
-// @harness props=C02,C01 tier=quick timeout=900
+// @harness props=C02 also=C01 tier=quick timeout=900
 // @bound every value of i32 presented through serialize_i32 against node enum2 (IntKind::Enum(2)); output <= 40 bytes; unwind 18 >= 16 decimal bytes + 2
 #[kani::proof]
 #[kani::unwind(18)]
@@ -454,7 +454,7 @@ fn c02_int_i32_enum2() {
 	cell_int::<i32>(kani::any(), e, IntKind::Enum(2));
 }
 
-// @harness props=C02,C01 tier=quick timeout=900
+// @harness props=C02 also=C01 tier=quick timeout=900
 // @bound every value of i64 presented through serialize_i64 against node enum2 (IntKind::Enum(2)); output <= 40 bytes; unwind 18 >= 16 decimal bytes + 2
 #[kani::proof]
 #[kani::unwind(18)]
@@ -464,7 +464,7 @@ fn c02_int_i64_enum2() {
 	cell_int::<i64>(kani::any(), e, IntKind::Enum(2));
 }
 
-// @harness props=C02,C01 tier=quick timeout=900
+// @harness props=C02 also=C01 tier=quick timeout=900
 // @bound every value of i128 presented through serialize_i128 against node enum2 (IntKind::Enum(2)); output <= 40 bytes; unwind 18 >= 16 decimal bytes + 2
 #[kani::proof]
 #[kani::unwind(18)]
@@ -474,7 +474,7 @@ fn c02_int_i128_enum2() {
 	cell_int::<i128>(kani::any(), e, IntKind::Enum(2));
 }
 
-// @harness props=C02,C01 tier=quick timeout=900
+// @harness props=C02 also=C01 tier=quick timeout=900
 // @bound every value of u8 presented through serialize_u8 against node enum2 (IntKind::Enum(2)); output <= 40 bytes; unwind 18 >= 16 decimal bytes + 2
 #[kani::proof]
 #[kani::unwind(18)]
@@ -484,7 +484,7 @@ fn c02_int_u8_enum2() {
 	cell_int::<u8>(kani::any(), e, IntKind::Enum(2));
 }
 
-// @harness props=C02,C01 tier=thorough timeout=900
+// @harness props=C02 also=C01 tier=thorough timeout=900
 // @bound every value of u16 presented through serialize_u16 against node enum2 (IntKind::Enum(2)); output <= 40 bytes; unwind 18 >= 16 decimal bytes + 2
 #[kani::proof]
 #[kani::unwind(18)]
@@ -494,7 +494,7 @@ fn c02_int_u16_enum2() {
 	cell_int::<u16>(kani::any(), e, IntKind::Enum(2));
 }
 
-// @harness props=C02,C01 tier=thorough timeout=900
+// @harness props=C02 also=C01 tier=thorough timeout=900
 // @bound every value of u32 presented through serialize_u32 against node enum2 (IntKind::Enum(2)); output <= 40 bytes; unwind 18 >= 16 decimal bytes + 2
 #[kani::proof]
 #[kani::unwind(18)]
@@ -504,7 +504,7 @@ fn c02_int_u32_enum2() {
 	cell_int::<u32>(kani::any(), e, IntKind::Enum(2));
 }
 
-// @harness props=C02,C01 tier=quick timeout=900
+// @harness props=C02 also=C01 tier=quick timeout=900
 // @bound every value of u64 presented through serialize_u64 against node enum2 (IntKind::Enum(2)); output <= 40 bytes; unwind 18 >= 16 decimal bytes + 2
 #[kani::proof]
 #[kani::unwind(18)]
@@ -514,7 +514,7 @@ fn c02_int_u64_enum2() {
 	cell_int::<u64>(kani::any(), e, IntKind::Enum(2));
 }
 
-// @harness props=C02,C01 tier=thorough timeout=900
+// @harness props=C02 also=C01 tier=thorough timeout=900
 // @bound every value of u128 presented through serialize_u128 against node enum2 (IntKind::Enum(2)); output <= 40 bytes; unwind 18 >= 16 decimal bytes + 2
 #[kani::proof]
 #[kani::unwind(18)]
@@ -524,7 +524,7 @@ fn c02_int_u128_enum2() {
 	cell_int::<u128>(kani::any(), e, IntKind::Enum(2));
 }
 
-// @harness props=C02,C01 tier=thorough timeout=900
+// @harness props=C02 also=C01 tier=thorough timeout=900
 // @bound every value of i8 presented through serialize_i8 against node decb0 (IntKind::DecBytes(0)); output <= 40 bytes; unwind 18 >= 16 decimal bytes + 2
 #[kani::proof]
 #[kani::unwind(18)]
@@ -534,7 +534,7 @@ fn c02_int_i8_decb0() {
 	cell_int::<i8>(kani::any(), d, IntKind::DecBytes(0));
 }
 
-// @harness props=C02,C01 tier=thorough timeout=900
+// @harness props=C02 also=C01 tier=thorough timeout=900
 // @bound every value of i16 presented through serialize_i16 against node decb0 (IntKind::DecBytes(0)); output <= 40 bytes; unwind 18 >= 16 decimal bytes + 2
 #[kani::proof]
 #[kani::unwind(18)]
@@ -544,7 +544,7 @@ fn c02_int_i16_decb0() {
 	cell_int::<i16>(kani::any(), d, IntKind::DecBytes(0));
 }
 
-// @harness props=C02,C01 tier=quick timeout=900
+// @harness props=C02 also=C01 tier=quick timeout=900
 // @bound every value of i32 presented through serialize_i32 against node decb0 (IntKind::DecBytes(0)); output <= 40 bytes; unwind 18 >= 16 decimal bytes + 2
 #[kani::proof]
 #[kani::unwind(18)]
@@ -554,7 +554,7 @@ fn c02_int_i32_decb0() {
 	cell_int::<i32>(kani::any(), d, IntKind::DecBytes(0));
 }
 
-// @harness props=C02,C01 tier=quick timeout=900
+// @harness props=C02 also=C01 tier=quick timeout=900
 // @bound every value of i64 presented through serialize_i64 against node decb0 (IntKind::DecBytes(0)); output <= 40 bytes; unwind 18 >= 16 decimal bytes + 2
 #[kani::proof]
 #[kani::unwind(18)]
@@ -564,7 +564,7 @@ fn c02_int_i64_decb0() {
 	cell_int::<i64>(kani::any(), d, IntKind::DecBytes(0));
 }
 
-// @harness props=C02,C01 tier=quick timeout=900
+// @harness props=C02 also=C01 tier=quick timeout=900
 // @bound every value of i128 presented through serialize_i128 against node decb0 (IntKind::DecBytes(0)); output <= 40 bytes; unwind 18 >= 16 decimal bytes + 2
 #[kani::proof]
 #[kani::unwind(18)]
@@ -574,7 +574,7 @@ fn c02_int_i128_decb0() {
 	cell_int::<i128>(kani::any(), d, IntKind::DecBytes(0));
 }
 
-// @harness props=C02,C01 tier=quick timeout=900
+// @harness props=C02 also=C01 tier=quick timeout=900
 // @bound every value of u8 presented through serialize_u8 against node decb0 (IntKind::DecBytes(0)); output <= 40 bytes; unwind 18 >= 16 decimal bytes + 2
 #[kani::proof]
 #[kani::unwind(18)]
@@ -584,7 +584,7 @@ fn c02_int_u8_decb0() {
 	cell_int::<u8>(kani::any(), d, IntKind::DecBytes(0));
 }
 
-// @harness props=C02,C01 tier=thorough timeout=900
+// @harness props=C02 also=C01 tier=thorough timeout=900
 // @bound every value of u16 presented through serialize_u16 against node decb0 (IntKind::DecBytes(0)); output <= 40 bytes; unwind 18 >= 16 decimal bytes + 2
 #[kani::proof]
 #[kani::unwind(18)]
@@ -594,7 +594,7 @@ fn c02_int_u16_decb0() {
 	cell_int::<u16>(kani::any(), d, IntKind::DecBytes(0));
 }
 
-// @harness props=C02,C01 tier=thorough timeout=900
+// @harness props=C02 also=C01 tier=thorough timeout=900
 // @bound every value of u32 presented through serialize_u32 against node decb0 (IntKind::DecBytes(0)); output <= 40 bytes; unwind 18 >= 16 decimal bytes + 2
 #[kani::proof]
 #[kani::unwind(18)]
@@ -604,7 +604,7 @@ fn c02_int_u32_decb0() {
 	cell_int::<u32>(kani::any(), d, IntKind::DecBytes(0));
 }
 
-// @harness props=C02,C01 tier=quick timeout=900
+// @harness props=C02 also=C01 tier=quick timeout=900
 // @bound every value of u64 presented through serialize_u64 against node decb0 (IntKind::DecBytes(0)); output <= 40 bytes; unwind 18 >= 16 decimal bytes + 2
 #[kani::proof]
 #[kani::unwind(18)]
@@ -614,7 +614,7 @@ fn c02_int_u64_decb0() {
 	cell_int::<u64>(kani::any(), d, IntKind::DecBytes(0));
 }
 
-// @harness props=C02,C01 tier=thorough timeout=900
+// @harness props=C02 also=C01 tier=thorough timeout=900
 // @bound every value of u128 presented through serialize_u128 against node decb0 (IntKind::DecBytes(0)); output <= 40 bytes; unwind 18 >= 16 decimal bytes + 2
 #[kani::proof]
 #[kani::unwind(18)]
@@ -624,7 +624,7 @@ fn c02_int_u128_decb0() {
 	cell_int::<u128>(kani::any(), d, IntKind::DecBytes(0));
 }
 
-// @harness props=C02,C01 tier=thorough timeout=900
+// @harness props=C02 also=C01 tier=thorough timeout=900
 // @bound every value of i8 presented through serialize_i8 against node decb2 (IntKind::DecBytes(2)); output <= 40 bytes; unwind 18 >= 16 decimal bytes + 2
 #[kani::proof]
 #[kani::unwind(18)]
@@ -634,7 +634,7 @@ fn c02_int_i8_decb2() {
 	cell_int::<i8>(kani::any(), d, IntKind::DecBytes(2));
 }
 
-// @harness props=C02,C01 tier=thorough timeout=900
+// @harness props=C02 also=C01 tier=thorough timeout=900
 // @bound every value of i16 presented through serialize_i16 against node decb2 (IntKind::DecBytes(2)); output <= 40 bytes; unwind 18 >= 16 decimal bytes + 2
 #[kani::proof]
 #[kani::unwind(18)]
@@ -644,7 +644,7 @@ fn c02_int_i16_decb2() {
 	cell_int::<i16>(kani::any(), d, IntKind::DecBytes(2));
 }
 
-// @harness props=C02,C01 tier=quick timeout=900
+// @harness props=C02 also=C01 tier=quick timeout=900
 // @bound every value of i32 presented through serialize_i32 against node decb2 (IntKind::DecBytes(2)); output <= 40 bytes; unwind 18 >= 16 decimal bytes + 2
 #[kani::proof]
 #[kani::unwind(18)]
@@ -654,7 +654,7 @@ fn c02_int_i32_decb2() {
 	cell_int::<i32>(kani::any(), d, IntKind::DecBytes(2));
 }
 
-// @harness props=C02,C01 tier=quick timeout=900
+// @harness props=C02 also=C01 tier=quick timeout=900
 // @bound every value of i64 presented through serialize_i64 against node decb2 (IntKind::DecBytes(2)); output <= 40 bytes; unwind 18 >= 16 decimal bytes + 2
 #[kani::proof]
 #[kani::unwind(18)]
@@ -664,7 +664,7 @@ fn c02_int_i64_decb2() {
 	cell_int::<i64>(kani::any(), d, IntKind::DecBytes(2));
 }
 
-// @harness props=C02,C01 tier=quick timeout=900
+// @harness props=C02 also=C01 tier=quick timeout=900
 // @bound every value of i128 presented through serialize_i128 against node decb2 (IntKind::DecBytes(2)); output <= 40 bytes; unwind 18 >= 16 decimal bytes + 2
 #[kani::proof]
 #[kani::unwind(18)]
@@ -674,7 +674,7 @@ fn c02_int_i128_decb2() {
 	cell_int::<i128>(kani::any(), d, IntKind::DecBytes(2));
 }
 
-// @harness props=C02,C01 tier=quick timeout=900
+// @harness props=C02 also=C01 tier=quick timeout=900
 // @bound every value of u8 presented through serialize_u8 against node decb2 (IntKind::DecBytes(2)); output <= 40 bytes; unwind 18 >= 16 decimal bytes + 2
 #[kani::proof]
 #[kani::unwind(18)]
@@ -684,7 +684,7 @@ fn c02_int_u8_decb2() {
 	cell_int::<u8>(kani::any(), d, IntKind::DecBytes(2));
 }
 
-// @harness props=C02,C01 tier=thorough timeout=900
+// @harness props=C02 also=C01 tier=thorough timeout=900
 // @bound every value of u16 presented through serialize_u16 against node decb2 (IntKind::DecBytes(2)); output <= 40 bytes; unwind 18 >= 16 decimal bytes + 2
 #[kani::proof]
 #[kani::unwind(18)]
@@ -694,7 +694,7 @@ fn c02_int_u16_decb2() {
 	cell_int::<u16>(kani::any(), d, IntKind::DecBytes(2));
 }
 
-// @harness props=C02,C01 tier=thorough timeout=900
+// @harness props=C02 also=C01 tier=thorough timeout=900
 // @bound every value of u32 presented through serialize_u32 against node decb2 (IntKind::DecBytes(2)); output <= 40 bytes; unwind 18 >= 16 decimal bytes + 2
 #[kani::proof]
 #[kani::unwind(18)]
@@ -704,7 +704,7 @@ fn c02_int_u32_decb2() {
 	cell_int::<u32>(kani::any(), d, IntKind::DecBytes(2));
 }
 
-// @harness props=C02,C01 tier=quick timeout=900
+// @harness props=C02 also=C01 tier=quick timeout=900
 // @bound every value of u64 presented through serialize_u64 against node decb2 (IntKind::DecBytes(2)); output <= 40 bytes; unwind 18 >= 16 decimal bytes + 2
 #[kani::proof]
 #[kani::unwind(18)]
@@ -714,7 +714,7 @@ fn c02_int_u64_decb2() {
 	cell_int::<u64>(kani::any(), d, IntKind::DecBytes(2));
 }
 
-// @harness props=C02,C01 tier=thorough timeout=900
+// @harness props=C02 also=C01 tier=thorough timeout=900
 // @bound every value of u128 presented through serialize_u128 against node decb2 (IntKind::DecBytes(2)); output <= 40 bytes; unwind 18 >= 16 decimal bytes + 2
 #[kani::proof]
 #[kani::unwind(18)]
@@ -724,7 +724,7 @@ fn c02_int_u128_decb2() {
 	cell_int::<u128>(kani::any(), d, IntKind::DecBytes(2));
 }
 
-// @harness props=C02,C01 tier=thorough timeout=900
+// @harness props=C02 also=C01 tier=thorough timeout=900
 // @bound every value of i8 presented through serialize_i8 against node decf0_0 (IntKind::DecFixed(0, 0)); output <= 40 bytes; unwind 18 >= 16 decimal bytes + 2
 #[kani::proof]
 #[kani::unwind(18)]
@@ -734,7 +734,7 @@ fn c02_int_i8_decf0_0() {
 	cell_int::<i8>(kani::any(), d, IntKind::DecFixed(0, 0));
 }
 
-// @harness props=C02,C01 tier=thorough timeout=900
+// @harness props=C02 also=C01 tier=thorough timeout=900
 // @bound every value of i16 presented through serialize_i16 against node decf0_0 (IntKind::DecFixed(0, 0)); output <= 40 bytes; unwind 18 >= 16 decimal bytes + 2
 #[kani::proof]
 #[kani::unwind(18)]
@@ -744,7 +744,7 @@ fn c02_int_i16_decf0_0() {
 	cell_int::<i16>(kani::any(), d, IntKind::DecFixed(0, 0));
 }
 
-// @harness props=C02,C01 tier=thorough timeout=900
+// @harness props=C02 also=C01 tier=thorough timeout=900
 // @bound every value of i32 presented through serialize_i32 against node decf0_0 (IntKind::DecFixed(0, 0)); output <= 40 bytes; unwind 18 >= 16 decimal bytes + 2
 #[kani::proof]
 #[kani::unwind(18)]
@@ -754,7 +754,7 @@ fn c02_int_i32_decf0_0() {
 	cell_int::<i32>(kani::any(), d, IntKind::DecFixed(0, 0));
 }
 
-// @harness props=C02,C01 tier=thorough timeout=900
+// @harness props=C02 also=C01 tier=thorough timeout=900
 // @bound every value of i64 presented through serialize_i64 against node decf0_0 (IntKind::DecFixed(0, 0)); output <= 40 bytes; unwind 18 >= 16 decimal bytes + 2
 #[kani::proof]
 #[kani::unwind(18)]
@@ -764,7 +764,7 @@ fn c02_int_i64_decf0_0() {
 	cell_int::<i64>(kani::any(), d, IntKind::DecFixed(0, 0));
 }
 
-// @harness props=C02,C01 tier=thorough timeout=900
+// @harness props=C02 also=C01 tier=thorough timeout=900
 // @bound every value of i128 presented through serialize_i128 against node decf0_0 (IntKind::DecFixed(0, 0)); output <= 40 bytes; unwind 18 >= 16 decimal bytes + 2
 #[kani::proof]
 #[kani::unwind(18)]
@@ -774,7 +774,7 @@ fn c02_int_i128_decf0_0() {
 	cell_int::<i128>(kani::any(), d, IntKind::DecFixed(0, 0));
 }
 
-// @harness props=C02,C01 tier=thorough timeout=900
+// @harness props=C02 also=C01 tier=thorough timeout=900
 // @bound every value of u8 presented through serialize_u8 against node decf0_0 (IntKind::DecFixed(0, 0)); output <= 40 bytes; unwind 18 >= 16 decimal bytes + 2
 #[kani::proof]
 #[kani::unwind(18)]
@@ -784,7 +784,7 @@ fn c02_int_u8_decf0_0() {
 	cell_int::<u8>(kani::any(), d, IntKind::DecFixed(0, 0));
 }
 
-// @harness props=C02,C01 tier=thorough timeout=900
+// @harness props=C02 also=C01 tier=thorough timeout=900
 // @bound every value of u16 presented through serialize_u16 against node decf0_0 (IntKind::DecFixed(0, 0)); output <= 40 bytes; unwind 18 >= 16 decimal bytes + 2
 #[kani::proof]
 #[kani::unwind(18)]
@@ -794,7 +794,7 @@ fn c02_int_u16_decf0_0() {
 	cell_int::<u16>(kani::any(), d, IntKind::DecFixed(0, 0));
 }
 
-// @harness props=C02,C01 tier=thorough timeout=900
+// @harness props=C02 also=C01 tier=thorough timeout=900
 // @bound every value of u32 presented through serialize_u32 against node decf0_0 (IntKind::DecFixed(0, 0)); output <= 40 bytes; unwind 18 >= 16 decimal bytes + 2
 #[kani::proof]
 #[kani::unwind(18)]
@@ -804,7 +804,7 @@ fn c02_int_u32_decf0_0() {
 	cell_int::<u32>(kani::any(), d, IntKind::DecFixed(0, 0));
 }
 
-// @harness props=C02,C01 tier=thorough timeout=900
+// @harness props=C02 also=C01 tier=thorough timeout=900
 // @bound every value of u64 presented through serialize_u64 against node decf0_0 (IntKind::DecFixed(0, 0)); output <= 40 bytes; unwind 18 >= 16 decimal bytes + 2
 #[kani::proof]
 #[kani::unwind(18)]
@@ -814,7 +814,7 @@ fn c02_int_u64_decf0_0() {
 	cell_int::<u64>(kani::any(), d, IntKind::DecFixed(0, 0));
 }
 
-// @harness props=C02,C01 tier=thorough timeout=900
+// @harness props=C02 also=C01 tier=thorough timeout=900
 // @bound every value of u128 presented through serialize_u128 against node decf0_0 (IntKind::DecFixed(0, 0)); output <= 40 bytes; unwind 18 >= 16 decimal bytes + 2
 #[kani::proof]
 #[kani::unwind(18)]
@@ -824,7 +824,7 @@ fn c02_int_u128_decf0_0() {
 	cell_int::<u128>(kani::any(), d, IntKind::DecFixed(0, 0));
 }
 
-// @harness props=C02,C01 tier=thorough timeout=900
+// @harness props=C02 also=C01 tier=thorough timeout=900
 // @bound every value of i8 presented through serialize_i8 against node decf1_0 (IntKind::DecFixed(1, 0)); output <= 40 bytes; unwind 18 >= 16 decimal bytes + 2
 #[kani::proof]
 #[kani::unwind(18)]
@@ -834,7 +834,7 @@ fn c02_int_i8_decf1_0() {
 	cell_int::<i8>(kani::any(), d, IntKind::DecFixed(1, 0));
 }
 
-// @harness props=C02,C01 tier=thorough timeout=900
+// @harness props=C02 also=C01 tier=thorough timeout=900
 // @bound every value of i16 presented through serialize_i16 against node decf1_0 (IntKind::DecFixed(1, 0)); output <= 40 bytes; unwind 18 >= 16 decimal bytes + 2
 #[kani::proof]
 #[kani::unwind(18)]
@@ -844,7 +844,7 @@ fn c02_int_i16_decf1_0() {
 	cell_int::<i16>(kani::any(), d, IntKind::DecFixed(1, 0));
 }
 
-// @harness props=C02,C01 tier=quick timeout=900
+// @harness props=C02 also=C01 tier=quick timeout=900
 // @bound every value of i32 presented through serialize_i32 against node decf1_0 (IntKind::DecFixed(1, 0)); output <= 40 bytes; unwind 18 >= 16 decimal bytes + 2
 #[kani::proof]
 #[kani::unwind(18)]
@@ -854,7 +854,7 @@ fn c02_int_i32_decf1_0() {
 	cell_int::<i32>(kani::any(), d, IntKind::DecFixed(1, 0));
 }
 
-// @harness props=C02,C01 tier=quick timeout=900
+// @harness props=C02 also=C01 tier=quick timeout=900
 // @bound every value of i64 presented through serialize_i64 against node decf1_0 (IntKind::DecFixed(1, 0)); output <= 40 bytes; unwind 18 >= 16 decimal bytes + 2
 #[kani::proof]
 #[kani::unwind(18)]
@@ -864,7 +864,7 @@ fn c02_int_i64_decf1_0() {
 	cell_int::<i64>(kani::any(), d, IntKind::DecFixed(1, 0));
 }
 
-// @harness props=C02,C01 tier=quick timeout=900
+// @harness props=C02 also=C01 tier=quick timeout=900
 // @bound every value of i128 presented through serialize_i128 against node decf1_0 (IntKind::DecFixed(1, 0)); output <= 40 bytes; unwind 18 >= 16 decimal bytes + 2
 #[kani::proof]
 #[kani::unwind(18)]
@@ -874,7 +874,7 @@ fn c02_int_i128_decf1_0() {
 	cell_int::<i128>(kani::any(), d, IntKind::DecFixed(1, 0));
 }
 
-// @harness props=C02,C01 tier=quick timeout=900
+// @harness props=C02 also=C01 tier=quick timeout=900
 // @bound every value of u8 presented through serialize_u8 against node decf1_0 (IntKind::DecFixed(1, 0)); output <= 40 bytes; unwind 18 >= 16 decimal bytes + 2
 #[kani::proof]
 #[kani::unwind(18)]
@@ -884,7 +884,7 @@ fn c02_int_u8_decf1_0() {
 	cell_int::<u8>(kani::any(), d, IntKind::DecFixed(1, 0));
 }
 
-// @harness props=C02,C01 tier=thorough timeout=900
+// @harness props=C02 also=C01 tier=thorough timeout=900
 // @bound every value of u16 presented through serialize_u16 against node decf1_0 (IntKind::DecFixed(1, 0)); output <= 40 bytes; unwind 18 >= 16 decimal bytes + 2
 #[kani::proof]
 #[kani::unwind(18)]
@@ -894,7 +894,7 @@ fn c02_int_u16_decf1_0() {
 	cell_int::<u16>(kani::any(), d, IntKind::DecFixed(1, 0));
 }
 
-// @harness props=C02,C01 tier=thorough timeout=900
+// @harness props=C02 also=C01 tier=thorough timeout=900
 // @bound every value of u32 presented through serialize_u32 against node decf1_0 (IntKind::DecFixed(1, 0)); output <= 40 bytes; unwind 18 >= 16 decimal bytes + 2
 #[kani::proof]
 #[kani::unwind(18)]
@@ -904,7 +904,7 @@ fn c02_int_u32_decf1_0() {
 	cell_int::<u32>(kani::any(), d, IntKind::DecFixed(1, 0));
 }
 
-// @harness props=C02,C01 tier=quick timeout=900
+// @harness props=C02 also=C01 tier=quick timeout=900
 // @bound every value of u64 presented through serialize_u64 against node decf1_0 (IntKind::DecFixed(1, 0)); output <= 40 bytes; unwind 18 >= 16 decimal bytes + 2
 #[kani::proof]
 #[kani::unwind(18)]
@@ -914,7 +914,7 @@ fn c02_int_u64_decf1_0() {
 	cell_int::<u64>(kani::any(), d, IntKind::DecFixed(1, 0));
 }
 
-// @harness props=C02,C01 tier=thorough timeout=900
+// @harness props=C02 also=C01 tier=thorough timeout=900
 // @bound every value of u128 presented through serialize_u128 against node decf1_0 (IntKind::DecFixed(1, 0)); output <= 40 bytes; unwind 18 >= 16 decimal bytes + 2
 #[kani::proof]
 #[kani::unwind(18)]
@@ -924,7 +924,7 @@ fn c02_int_u128_decf1_0() {
 	cell_int::<u128>(kani::any(), d, IntKind::DecFixed(1, 0));
 }
 
-// @harness props=C02,C01 tier=thorough timeout=900
+// @harness props=C02 also=C01 tier=thorough timeout=900
 // @bound every value of i8 presented through serialize_i8 against node decf2_0 (IntKind::DecFixed(2, 0)); output <= 40 bytes; unwind 18 >= 16 decimal bytes + 2
 #[kani::proof]
 #[kani::unwind(18)]
@@ -934,7 +934,7 @@ fn c02_int_i8_decf2_0() {
 	cell_int::<i8>(kani::any(), d, IntKind::DecFixed(2, 0));
 }
 
-// @harness props=C02,C01 tier=thorough timeout=900
+// @harness props=C02 also=C01 tier=thorough timeout=900
 // @bound every value of i16 presented through serialize_i16 against node decf2_0 (IntKind::DecFixed(2, 0)); output <= 40 bytes; unwind 18 >= 16 decimal bytes + 2
 #[kani::proof]
 #[kani::unwind(18)]
@@ -944,7 +944,7 @@ fn c02_int_i16_decf2_0() {
 	cell_int::<i16>(kani::any(), d, IntKind::DecFixed(2, 0));
 }
 
-// @harness props=C02,C01 tier=thorough timeout=900
+// @harness props=C02 also=C01 tier=thorough timeout=900
 // @bound every value of i32 presented through serialize_i32 against node decf2_0 (IntKind::DecFixed(2, 0)); output <= 40 bytes; unwind 18 >= 16 decimal bytes + 2
 #[kani::proof]
 #[kani::unwind(18)]
@@ -954,7 +954,7 @@ fn c02_int_i32_decf2_0() {
 	cell_int::<i32>(kani::any(), d, IntKind::DecFixed(2, 0));
 }
 
-// @harness props=C02,C01 tier=thorough timeout=900
+// @harness props=C02 also=C01 tier=thorough timeout=900
 // @bound every value of i64 presented through serialize_i64 against node decf2_0 (IntKind::DecFixed(2, 0)); output <= 40 bytes; unwind 18 >= 16 decimal bytes + 2
 #[kani::proof]
 #[kani::unwind(18)]
@@ -964,7 +964,7 @@ fn c02_int_i64_decf2_0() {
 	cell_int::<i64>(kani::any(), d, IntKind::DecFixed(2, 0));
 }
 
-// @harness props=C02,C01 tier=thorough timeout=900
+// @harness props=C02 also=C01 tier=thorough timeout=900
 // @bound every value of i128 presented through serialize_i128 against node decf2_0 (IntKind::DecFixed(2, 0)); output <= 40 bytes; unwind 18 >= 16 decimal bytes + 2
 #[kani::proof]
 #[kani::unwind(18)]
@@ -974,7 +974,7 @@ fn c02_int_i128_decf2_0() {
 	cell_int::<i128>(kani::any(), d, IntKind::DecFixed(2, 0));
 }
 
-// @harness props=C02,C01 tier=thorough timeout=900
+// @harness props=C02 also=C01 tier=thorough timeout=900
 // @bound every value of u8 presented through serialize_u8 against node decf2_0 (IntKind::DecFixed(2, 0)); output <= 40 bytes; unwind 18 >= 16 decimal bytes + 2
 #[kani::proof]
 #[kani::unwind(18)]
@@ -984,7 +984,7 @@ fn c02_int_u8_decf2_0() {
 	cell_int::<u8>(kani::any(), d, IntKind::DecFixed(2, 0));
 }
 
-// @harness props=C02,C01 tier=thorough timeout=900
+// @harness props=C02 also=C01 tier=thorough timeout=900
 // @bound every value of u16 presented through serialize_u16 against node decf2_0 (IntKind::DecFixed(2, 0)); output <= 40 bytes; unwind 18 >= 16 decimal bytes + 2
 #[kani::proof]
 #[kani::unwind(18)]
@@ -994,7 +994,7 @@ fn c02_int_u16_decf2_0() {
 	cell_int::<u16>(kani::any(), d, IntKind::DecFixed(2, 0));
 }
 
-// @harness props=C02,C01 tier=thorough timeout=900
+// @harness props=C02 also=C01 tier=thorough timeout=900
 // @bound every value of u32 presented through serialize_u32 against node decf2_0 (IntKind::DecFixed(2, 0)); output <= 40 bytes; unwind 18 >= 16 decimal bytes + 2
 #[kani::proof]
 #[kani::unwind(18)]
@@ -1004,7 +1004,7 @@ fn c02_int_u32_decf2_0() {
 	cell_int::<u32>(kani::any(), d, IntKind::DecFixed(2, 0));
 }
 
-// @harness props=C02,C01 tier=thorough timeout=900
+// @harness props=C02 also=C01 tier=thorough timeout=900
 // @bound every value of u64 presented through serialize_u64 against node decf2_0 (IntKind::DecFixed(2, 0)); output <= 40 bytes; unwind 18 >= 16 decimal bytes + 2
 #[kani::proof]
 #[kani::unwind(18)]
@@ -1014,7 +1014,7 @@ fn c02_int_u64_decf2_0() {
 	cell_int::<u64>(kani::any(), d, IntKind::DecFixed(2, 0));
 }
 
-// @harness props=C02,C01 tier=thorough timeout=900
+// @harness props=C02 also=C01 tier=thorough timeout=900
 // @bound every value of u128 presented through serialize_u128 against node decf2_0 (IntKind::DecFixed(2, 0)); output <= 40 bytes; unwind 18 >= 16 decimal bytes + 2
 #[kani::proof]
 #[kani::unwind(18)]
@@ -1024,7 +1024,7 @@ fn c02_int_u128_decf2_0() {
 	cell_int::<u128>(kani::any(), d, IntKind::DecFixed(2, 0));
 }
 
-// @harness props=C02,C01 tier=thorough timeout=900
+// @harness props=C02 also=C01 tier=thorough timeout=900
 // @bound every value of i8 presented through serialize_i8 against node decf8_0 (IntKind::DecFixed(8, 0)); output <= 40 bytes; unwind 18 >= 16 decimal bytes + 2
 #[kani::proof]
 #[kani::unwind(18)]
@@ -1034,7 +1034,7 @@ fn c02_int_i8_decf8_0() {
 	cell_int::<i8>(kani::any(), d, IntKind::DecFixed(8, 0));
 }
 
-// @harness props=C02,C01 tier=thorough timeout=900
+// @harness props=C02 also=C01 tier=thorough timeout=900
 // @bound every value of i16 presented through serialize_i16 against node decf8_0 (IntKind::DecFixed(8, 0)); output <= 40 bytes; unwind 18 >= 16 decimal bytes + 2
 #[kani::proof]
 #[kani::unwind(18)]
@@ -1044,7 +1044,7 @@ fn c02_int_i16_decf8_0() {
 	cell_int::<i16>(kani::any(), d, IntKind::DecFixed(8, 0));
 }
 
-// @harness props=C02,C01 tier=thorough timeout=900
+// @harness props=C02 also=C01 tier=thorough timeout=900
 // @bound every value of i32 presented through serialize_i32 against node decf8_0 (IntKind::DecFixed(8, 0)); output <= 40 bytes; unwind 18 >= 16 decimal bytes + 2
 #[kani::proof]
 #[kani::unwind(18)]
@@ -1054,7 +1054,7 @@ fn c02_int_i32_decf8_0() {
 	cell_int::<i32>(kani::any(), d, IntKind::DecFixed(8, 0));
 }
 
-// @harness props=C02,C01 tier=thorough timeout=900
+// @harness props=C02 also=C01 tier=thorough timeout=900
 // @bound every value of i64 presented through serialize_i64 against node decf8_0 (IntKind::DecFixed(8, 0)); output <= 40 bytes; unwind 18 >= 16 decimal bytes + 2
 #[kani::proof]
 #[kani::unwind(18)]
@@ -1064,7 +1064,7 @@ fn c02_int_i64_decf8_0() {
 	cell_int::<i64>(kani::any(), d, IntKind::DecFixed(8, 0));
 }
 
-// @harness props=C02,C01 tier=thorough timeout=900
+// @harness props=C02 also=C01 tier=thorough timeout=900
 // @bound every value of i128 presented through serialize_i128 against node decf8_0 (IntKind::DecFixed(8, 0)); output <= 40 bytes; unwind 18 >= 16 decimal bytes + 2
 #[kani::proof]
 #[kani::unwind(18)]
@@ -1074,7 +1074,7 @@ fn c02_int_i128_decf8_0() {
 	cell_int::<i128>(kani::any(), d, IntKind::DecFixed(8, 0));
 }
 
-// @harness props=C02,C01 tier=thorough timeout=900
+// @harness props=C02 also=C01 tier=thorough timeout=900
 // @bound every value of u8 presented through serialize_u8 against node decf8_0 (IntKind::DecFixed(8, 0)); output <= 40 bytes; unwind 18 >= 16 decimal bytes + 2
 #[kani::proof]
 #[kani::unwind(18)]
@@ -1084,7 +1084,7 @@ fn c02_int_u8_decf8_0() {
 	cell_int::<u8>(kani::any(), d, IntKind::DecFixed(8, 0));
 }
 
-// @harness props=C02,C01 tier=thorough timeout=900
+// @harness props=C02 also=C01 tier=thorough timeout=900
 // @bound every value of u16 presented through serialize_u16 against node decf8_0 (IntKind::DecFixed(8, 0)); output <= 40 bytes; unwind 18 >= 16 decimal bytes + 2
 #[kani::proof]
 #[kani::unwind(18)]
@@ -1094,7 +1094,7 @@ fn c02_int_u16_decf8_0() {
 	cell_int::<u16>(kani::any(), d, IntKind::DecFixed(8, 0));
 }
 
-// @harness props=C02,C01 tier=thorough timeout=900
+// @harness props=C02 also=C01 tier=thorough timeout=900
 // @bound every value of u32 presented through serialize_u32 against node decf8_0 (IntKind::DecFixed(8, 0)); output <= 40 bytes; unwind 18 >= 16 decimal bytes + 2
 #[kani::proof]
 #[kani::unwind(18)]
@@ -1104,7 +1104,7 @@ fn c02_int_u32_decf8_0() {
 	cell_int::<u32>(kani::any(), d, IntKind::DecFixed(8, 0));
 }
 
-// @harness props=C02,C01 tier=thorough timeout=900
+// @harness props=C02 also=C01 tier=thorough timeout=900
 // @bound every value of u64 presented through serialize_u64 against node decf8_0 (IntKind::DecFixed(8, 0)); output <= 40 bytes; unwind 18 >= 16 decimal bytes + 2
 #[kani::proof]
 #[kani::unwind(18)]
@@ -1114,7 +1114,7 @@ fn c02_int_u64_decf8_0() {
 	cell_int::<u64>(kani::any(), d, IntKind::DecFixed(8, 0));
 }
 
-// @harness props=C02,C01 tier=thorough timeout=900
+// @harness props=C02 also=C01 tier=thorough timeout=900
 // @bound every value of u128 presented through serialize_u128 against node decf8_0 (IntKind::DecFixed(8, 0)); output <= 40 bytes; unwind 18 >= 16 decimal bytes + 2
 #[kani::proof]
 #[kani::unwind(18)]
@@ -1124,7 +1124,7 @@ fn c02_int_u128_decf8_0() {
 	cell_int::<u128>(kani::any(), d, IntKind::DecFixed(8, 0));
 }
 
-// @harness props=C02,C01 tier=thorough timeout=900
+// @harness props=C02 also=C01 tier=thorough timeout=900
 // @bound every value of i8 presented through serialize_i8 against node decf16_0 (IntKind::DecFixed(16, 0)); output <= 40 bytes; unwind 18 >= 16 decimal bytes + 2
 #[kani::proof]
 #[kani::unwind(18)]
@@ -1134,7 +1134,7 @@ fn c02_int_i8_decf16_0() {
 	cell_int::<i8>(kani::any(), d, IntKind::DecFixed(16, 0));
 }
 
-// @harness props=C02,C01 tier=thorough timeout=900
+// @harness props=C02 also=C01 tier=thorough timeout=900
 // @bound every value of i16 presented through serialize_i16 against node decf16_0 (IntKind::DecFixed(16, 0)); output <= 40 bytes; unwind 18 >= 16 decimal bytes + 2
 #[kani::proof]
 #[kani::unwind(18)]
@@ -1144,7 +1144,7 @@ fn c02_int_i16_decf16_0() {
 	cell_int::<i16>(kani::any(), d, IntKind::DecFixed(16, 0));
 }
 
-// @harness props=C02,C01 tier=thorough timeout=900
+// @harness props=C02 also=C01 tier=thorough timeout=900
 // @bound every value of i32 presented through serialize_i32 against node decf16_0 (IntKind::DecFixed(16, 0)); output <= 40 bytes; unwind 18 >= 16 decimal bytes + 2
 #[kani::proof]
 #[kani::unwind(18)]
@@ -1154,7 +1154,7 @@ fn c02_int_i32_decf16_0() {
 	cell_int::<i32>(kani::any(), d, IntKind::DecFixed(16, 0));
 }
 
-// @harness props=C02,C01 tier=thorough timeout=900
+// @harness props=C02 also=C01 tier=thorough timeout=900
 // @bound every value of i64 presented through serialize_i64 against node decf16_0 (IntKind::DecFixed(16, 0)); output <= 40 bytes; unwind 18 >= 16 decimal bytes + 2
 #[kani::proof]
 #[kani::unwind(18)]
@@ -1164,7 +1164,7 @@ fn c02_int_i64_decf16_0() {
 	cell_int::<i64>(kani::any(), d, IntKind::DecFixed(16, 0));
 }
 
-// @harness props=C02,C01 tier=thorough timeout=900
+// @harness props=C02 also=C01 tier=thorough timeout=900
 // @bound every value of i128 presented through serialize_i128 against node decf16_0 (IntKind::DecFixed(16, 0)); output <= 40 bytes; unwind 18 >= 16 decimal bytes + 2
 #[kani::proof]
 #[kani::unwind(18)]
@@ -1174,7 +1174,7 @@ fn c02_int_i128_decf16_0() {
 	cell_int::<i128>(kani::any(), d, IntKind::DecFixed(16, 0));
 }
 
-// @harness props=C02,C01 tier=thorough timeout=900
+// @harness props=C02 also=C01 tier=thorough timeout=900
 // @bound every value of u8 presented through serialize_u8 against node decf16_0 (IntKind::DecFixed(16, 0)); output <= 40 bytes; unwind 18 >= 16 decimal bytes + 2
 #[kani::proof]
 #[kani::unwind(18)]
@@ -1184,7 +1184,7 @@ fn c02_int_u8_decf16_0() {
 	cell_int::<u8>(kani::any(), d, IntKind::DecFixed(16, 0));
 }
 
-// @harness props=C02,C01 tier=thorough timeout=900
+// @harness props=C02 also=C01 tier=thorough timeout=900
 // @bound every value of u16 presented through serialize_u16 against node decf16_0 (IntKind::DecFixed(16, 0)); output <= 40 bytes; unwind 18 >= 16 decimal bytes + 2
 #[kani::proof]
 #[kani::unwind(18)]
@@ -1194,7 +1194,7 @@ fn c02_int_u16_decf16_0() {
 	cell_int::<u16>(kani::any(), d, IntKind::DecFixed(16, 0));
 }
 
-// @harness props=C02,C01 tier=thorough timeout=900
+// @harness props=C02 also=C01 tier=thorough timeout=900
 // @bound every value of u32 presented through serialize_u32 against node decf16_0 (IntKind::DecFixed(16, 0)); output <= 40 bytes; unwind 18 >= 16 decimal bytes + 2
 #[kani::proof]
 #[kani::unwind(18)]
@@ -1204,7 +1204,7 @@ fn c02_int_u32_decf16_0() {
 	cell_int::<u32>(kani::any(), d, IntKind::DecFixed(16, 0));
 }
 
-// @harness props=C02,C01 tier=thorough timeout=900
+// @harness props=C02 also=C01 tier=thorough timeout=900
 // @bound every value of u64 presented through serialize_u64 against node decf16_0 (IntKind::DecFixed(16, 0)); output <= 40 bytes; unwind 18 >= 16 decimal bytes + 2
 #[kani::proof]
 #[kani::unwind(18)]
@@ -1214,7 +1214,7 @@ fn c02_int_u64_decf16_0() {
 	cell_int::<u64>(kani::any(), d, IntKind::DecFixed(16, 0));
 }
 
-// @harness props=C02,C01 tier=thorough timeout=900
+// @harness props=C02 also=C01 tier=thorough timeout=900
 // @bound every value of u128 presented through serialize_u128 against node decf16_0 (IntKind::DecFixed(16, 0)); output <= 40 bytes; unwind 18 >= 16 decimal bytes + 2
 #[kani::proof]
 #[kani::unwind(18)]
@@ -1224,7 +1224,7 @@ fn c02_int_u128_decf16_0() {
 	cell_int::<u128>(kani::any(), d, IntKind::DecFixed(16, 0));
 }
 
-// @harness props=C02,C01 tier=thorough timeout=900
+// @harness props=C02 also=C01 tier=thorough timeout=900
 // @bound every value of i8 presented through serialize_i8 against node decf17_0 (IntKind::DecFixed(17, 0)); output <= 40 bytes; unwind 18 >= 16 decimal bytes + 2
 #[kani::proof]
 #[kani::unwind(18)]
@@ -1234,7 +1234,7 @@ fn c02_int_i8_decf17_0() {
 	cell_int::<i8>(kani::any(), d, IntKind::DecFixed(17, 0));
 }
 
-// @harness props=C02,C01 tier=thorough timeout=900
+// @harness props=C02 also=C01 tier=thorough timeout=900
 // @bound every value of i16 presented through serialize_i16 against node decf17_0 (IntKind::DecFixed(17, 0)); output <= 40 bytes; unwind 18 >= 16 decimal bytes + 2
 #[kani::proof]
 #[kani::unwind(18)]
@@ -1244,7 +1244,7 @@ fn c02_int_i16_decf17_0() {
 	cell_int::<i16>(kani::any(), d, IntKind::DecFixed(17, 0));
 }
 
-// @harness props=C02,C01 tier=thorough timeout=900
+// @harness props=C02 also=C01 tier=thorough timeout=900
 // @bound every value of i32 presented through serialize_i32 against node decf17_0 (IntKind::DecFixed(17, 0)); output <= 40 bytes; unwind 18 >= 16 decimal bytes + 2
 #[kani::proof]
 #[kani::unwind(18)]
@@ -1254,7 +1254,7 @@ fn c02_int_i32_decf17_0() {
 	cell_int::<i32>(kani::any(), d, IntKind::DecFixed(17, 0));
 }
 
-// @harness props=C02,C01 tier=thorough timeout=900
+// @harness props=C02 also=C01 tier=thorough timeout=900
 // @bound every value of i64 presented through serialize_i64 against node decf17_0 (IntKind::DecFixed(17, 0)); output <= 40 bytes; unwind 18 >= 16 decimal bytes + 2
 #[kani::proof]
 #[kani::unwind(18)]
@@ -1264,7 +1264,7 @@ fn c02_int_i64_decf17_0() {
 	cell_int::<i64>(kani::any(), d, IntKind::DecFixed(17, 0));
 }
 
-// @harness props=C02,C01 tier=thorough timeout=900
+// @harness props=C02 also=C01 tier=thorough timeout=900
 // @bound every value of i128 presented through serialize_i128 against node decf17_0 (IntKind::DecFixed(17, 0)); output <= 40 bytes; unwind 18 >= 16 decimal bytes + 2
 #[kani::proof]
 #[kani::unwind(18)]
@@ -1274,7 +1274,7 @@ fn c02_int_i128_decf17_0() {
 	cell_int::<i128>(kani::any(), d, IntKind::DecFixed(17, 0));
 }
 
-// @harness props=C02,C01 tier=thorough timeout=900
+// @harness props=C02 also=C01 tier=thorough timeout=900
 // @bound every value of u8 presented through serialize_u8 against node decf17_0 (IntKind::DecFixed(17, 0)); output <= 40 bytes; unwind 18 >= 16 decimal bytes + 2
 #[kani::proof]
 #[kani::unwind(18)]
@@ -1284,7 +1284,7 @@ fn c02_int_u8_decf17_0() {
 	cell_int::<u8>(kani::any(), d, IntKind::DecFixed(17, 0));
 }
 
-// @harness props=C02,C01 tier=thorough timeout=900
+// @harness props=C02 also=C01 tier=thorough timeout=900
 // @bound every value of u16 presented through serialize_u16 against node decf17_0 (IntKind::DecFixed(17, 0)); output <= 40 bytes; unwind 18 >= 16 decimal bytes + 2
 #[kani::proof]
 #[kani::unwind(18)]
@@ -1294,7 +1294,7 @@ fn c02_int_u16_decf17_0() {
 	cell_int::<u16>(kani::any(), d, IntKind::DecFixed(17, 0));
 }
 
-// @harness props=C02,C01 tier=thorough timeout=900
+// @harness props=C02 also=C01 tier=thorough timeout=900
 // @bound every value of u32 presented through serialize_u32 against node decf17_0 (IntKind::DecFixed(17, 0)); output <= 40 bytes; unwind 18 >= 16 decimal bytes + 2
 #[kani::proof]
 #[kani::unwind(18)]
@@ -1304,7 +1304,7 @@ fn c02_int_u32_decf17_0() {
 	cell_int::<u32>(kani::any(), d, IntKind::DecFixed(17, 0));
 }
 
-// @harness props=C02,C01 tier=thorough timeout=900
+// @harness props=C02 also=C01 tier=thorough timeout=900
 // @bound every value of u64 presented through serialize_u64 against node decf17_0 (IntKind::DecFixed(17, 0)); output <= 40 bytes; unwind 18 >= 16 decimal bytes + 2
 #[kani::proof]
 #[kani::unwind(18)]
@@ -1314,7 +1314,7 @@ fn c02_int_u64_decf17_0() {
 	cell_int::<u64>(kani::any(), d, IntKind::DecFixed(17, 0));
 }
 
-// @harness props=C02,C01 tier=thorough timeout=900
+// @harness props=C02 also=C01 tier=thorough timeout=900
 // @bound every value of u128 presented through serialize_u128 against node decf17_0 (IntKind::DecFixed(17, 0)); output <= 40 bytes; unwind 18 >= 16 decimal bytes + 2
 #[kani::proof]
 #[kani::unwind(18)]
@@ -1324,7 +1324,7 @@ fn c02_int_u128_decf17_0() {
 	cell_int::<u128>(kani::any(), d, IntKind::DecFixed(17, 0));
 }
 
-// @harness props=C02,C01 tier=thorough timeout=900
+// @harness props=C02 also=C01 tier=thorough timeout=900
 // @bound every value of i8 presented through serialize_i8 against node decf2_1 (IntKind::DecFixed(2, 1)); output <= 40 bytes; unwind 18 >= 16 decimal bytes + 2
 #[kani::proof]
 #[kani::unwind(18)]
@@ -1334,7 +1334,7 @@ fn c02_int_i8_decf2_1() {
 	cell_int::<i8>(kani::any(), d, IntKind::DecFixed(2, 1));
 }
 
-// @harness props=C02,C01 tier=thorough timeout=900
+// @harness props=C02 also=C01 tier=thorough timeout=900
 // @bound every value of i16 presented through serialize_i16 against node decf2_1 (IntKind::DecFixed(2, 1)); output <= 40 bytes; unwind 18 >= 16 decimal bytes + 2
 #[kani::proof]
 #[kani::unwind(18)]
@@ -1344,7 +1344,7 @@ fn c02_int_i16_decf2_1() {
 	cell_int::<i16>(kani::any(), d, IntKind::DecFixed(2, 1));
 }
 
-// @harness props=C02,C01 tier=quick timeout=900
+// @harness props=C02 also=C01 tier=quick timeout=900
 // @bound every value of i32 presented through serialize_i32 against node decf2_1 (IntKind::DecFixed(2, 1)); output <= 40 bytes; unwind 18 >= 16 decimal bytes + 2
 #[kani::proof]
 #[kani::unwind(18)]
@@ -1354,7 +1354,7 @@ fn c02_int_i32_decf2_1() {
 	cell_int::<i32>(kani::any(), d, IntKind::DecFixed(2, 1));
 }
 
-// @harness props=C02,C01 tier=quick timeout=900
+// @harness props=C02 also=C01 tier=quick timeout=900
 // @bound every value of i64 presented through serialize_i64 against node decf2_1 (IntKind::DecFixed(2, 1)); output <= 40 bytes; unwind 18 >= 16 decimal bytes + 2
 #[kani::proof]
 #[kani::unwind(18)]
@@ -1364,7 +1364,7 @@ fn c02_int_i64_decf2_1() {
 	cell_int::<i64>(kani::any(), d, IntKind::DecFixed(2, 1));
 }
 
-// @harness props=C02,C01 tier=quick timeout=900
+// @harness props=C02 also=C01 tier=quick timeout=900
 // @bound every value of i128 presented through serialize_i128 against node decf2_1 (IntKind::DecFixed(2, 1)); output <= 40 bytes; unwind 18 >= 16 decimal bytes + 2
 #[kani::proof]
 #[kani::unwind(18)]
@@ -1374,7 +1374,7 @@ fn c02_int_i128_decf2_1() {
 	cell_int::<i128>(kani::any(), d, IntKind::DecFixed(2, 1));
 }
 
-// @harness props=C02,C01 tier=quick timeout=900
+// @harness props=C02 also=C01 tier=quick timeout=900
 // @bound every value of u8 presented through serialize_u8 against node decf2_1 (IntKind::DecFixed(2, 1)); output <= 40 bytes; unwind 18 >= 16 decimal bytes + 2
 #[kani::proof]
 #[kani::unwind(18)]
@@ -1384,7 +1384,7 @@ fn c02_int_u8_decf2_1() {
 	cell_int::<u8>(kani::any(), d, IntKind::DecFixed(2, 1));
 }
 
-// @harness props=C02,C01 tier=thorough timeout=900
+// @harness props=C02 also=C01 tier=thorough timeout=900
 // @bound every value of u16 presented through serialize_u16 against node decf2_1 (IntKind::DecFixed(2, 1)); output <= 40 bytes; unwind 18 >= 16 decimal bytes + 2
 #[kani::proof]
 #[kani::unwind(18)]
@@ -1394,7 +1394,7 @@ fn c02_int_u16_decf2_1() {
 	cell_int::<u16>(kani::any(), d, IntKind::DecFixed(2, 1));
 }
 
-// @harness props=C02,C01 tier=thorough timeout=900
+// @harness props=C02 also=C01 tier=thorough timeout=900
 // @bound every value of u32 presented through serialize_u32 against node decf2_1 (IntKind::DecFixed(2, 1)); output <= 40 bytes; unwind 18 >= 16 decimal bytes + 2
 #[kani::proof]
 #[kani::unwind(18)]
@@ -1404,7 +1404,7 @@ fn c02_int_u32_decf2_1() {
 	cell_int::<u32>(kani::any(), d, IntKind::DecFixed(2, 1));
 }
 
-// @harness props=C02,C01 tier=quick timeout=900
+// @harness props=C02 also=C01 tier=quick timeout=900
 // @bound every value of u64 presented through serialize_u64 against node decf2_1 (IntKind::DecFixed(2, 1)); output <= 40 bytes; unwind 18 >= 16 decimal bytes + 2
 #[kani::proof]
 #[kani::unwind(18)]
@@ -1414,7 +1414,7 @@ fn c02_int_u64_decf2_1() {
 	cell_int::<u64>(kani::any(), d, IntKind::DecFixed(2, 1));
 }
 
-// @harness props=C02,C01 tier=thorough timeout=900
+// @harness props=C02 also=C01 tier=thorough timeout=900
 // @bound every value of u128 presented through serialize_u128 against node decf2_1 (IntKind::DecFixed(2, 1)); output <= 40 bytes; unwind 18 >= 16 decimal bytes + 2
 #[kani::proof]
 #[kani::unwind(18)]
@@ -1451,7 +1451,7 @@ fn c02_bytes_to_string() {
 	std::mem::forget(r);
 }
 
-// @harness props=C02,C01 tier=quick timeout=900
+// @harness props=C02 also=C01 tier=quick timeout=900
 // @bound bytes (0..=4 symbolic) to `bytes`; to fixed(3): Ok iff length == 3 and then exactly those bytes; to duration: Ok iff length == 12
 #[kani::proof]
 #[kani::unwind(15)]
@@ -1483,14 +1483,14 @@ fn c02_bytes_to_bytes_fixed_duration() {
 	std::mem::forget(r);
 }
 
-struct StrSrc<'a>(&'a str);
+pub(crate) struct StrSrc<'a>(pub(crate) &'a str);
 impl Serialize for StrSrc<'_> {
 	fn serialize<S: Serializer>(&self, s: S) -> Result<S::Ok, S::Error> {
 		s.serialize_str(self.0)
 	}
 }
 
-// @harness props=C02,C01 tier=quick timeout=900
+// @harness props=C02 also=C01 tier=quick timeout=900
 // @bound str presented to enum {a,b,cc}: each symbol -> its index as varint; non-members ("c", "", "ccc") -> Err
 #[kani::proof]
 #[kani::unwind(8)]
@@ -1531,7 +1531,7 @@ impl Serialize for SeqAdv<'_> {
 	}
 }
 
-// @harness props=C02,C01 tier=thorough timeout=3000
+// @harness props=C02 also=C01 tier=thorough timeout=3000
 // @bound seq of 0..=3 longs (values -64..64) to array<long> with an advertised length that is exact, absent, smaller or larger (symbolic 0..=4): Ok => the bytes decode (reference block decoder) to exactly the presented elements; fewer elements than advertised => Err
 #[kani::proof]
 #[kani::unwind(8)]
@@ -1597,7 +1597,7 @@ impl Serialize for U8Seq<'_> {
 	}
 }
 
-// @harness props=C02,C01 tier=thorough timeout=3000
+// @harness props=C02 also=C01 tier=thorough timeout=3000
 // @bound u8 seq of 0..=3 elements to `bytes` (slow-sequence mode on) and to fixed(2), advertised length exact / absent / wrong (symbolic): Ok => spec-exact bytes of exactly the presented elements; length mismatch => Err; mode off => Err
 #[kani::proof]
 #[kani::unwind(8)]
@@ -1632,7 +1632,7 @@ fn c02_seq_to_bytes_fixed() {
 	std::mem::forget(r);
 }
 
-// @harness props=C02,C01 tier=quick timeout=900
+// @harness props=C02 also=C01 tier=quick timeout=900
 // @bound duration from (u32,u32,u32) tuple and from struct {months,days,milliseconds}: all values -> 12 little-endian bytes
 #[kani::proof]
 #[kani::unwind(14)]
@@ -1651,7 +1651,7 @@ fn c02_duration() {
 	std::mem::forget(r);
 }
 
-// @harness props=C02,C01 tier=quick timeout=900
+// @harness props=C02 also=C01 tier=quick timeout=900
 // @bound float (all f32 bit patterns via serialize_f32), double (all f64 bit patterns), boolean, unit->null, f32 to double -> Err
 #[kani::proof]
 #[kani::unwind(10)]
@@ -1683,7 +1683,7 @@ fn c02_fixed_width() {
 	std::mem::forget(r);
 }
 
-// @harness props=C02,C01 tier=quick timeout=900
+// @harness props=C02 also=C01 tier=quick timeout=900
 // @bound str of 0..=3 symbolic bytes (well-formed UTF-8) to string / bytes / uuid: length-prefixed copy; to fixed(2): Ok iff 2 bytes
 #[kani::proof]
 #[kani::unwind(8)]
@@ -1709,6 +1709,52 @@ fn c02_str_presentations() {
 		assert!(n == 2 && out.len == 2 && out.buf[1] == content[1], "c02_str: fixed accepted a str of the wrong length");
 	} else {
 		assert!(n != 2, "c02_str: fixed rejected a str of the right length");
+	}
+	std::mem::forget(r);
+}
+
+
+
+// =============================================================================================
+// C02 / C01: values presented as rust_decimal::Decimal (what str / f64 presentations are turned into)
+
+fn decimal_serialize_case(node: &'static SchemaNode<'static>, m: i128) -> (Result<(), SerError>, FixedBuf<24>) {
+	let dec = match node {
+		SchemaNode::Decimal(d) => d,
+		_ => unreachable!(),
+	};
+	let mut config = SerializerConfig::new_with_optional_schema(None);
+	let mut state = SerializerState::from_writer(FixedBuf::<24>::new(), &mut config);
+	let r = decimal::serialize(&mut state, decimal::DecimalMode::Regular(dec), rust_decimal::Decimal::from_i128_with_scale(m, 0));
+	let w = state.into_writer();
+	std::mem::forget(config);
+	(r, w)
+}
+
+// @harness props=C02,C01 tier=quick timeout=1800
+// @bound decimal(bytes, scale 0) and decimal(fixed 2) from a rust_decimal value with every mantissa in -2^40..2^40 at scale 0 (the sign-aware minimal-length truncation): Ok => length-prefixed two's complement that decodes to the same number; does not fit fixed(2) => Err
+#[kani::proof]
+#[kani::unwind(19)]
+#[kani::stub(alloc::fmt::format, crate::verif::stub_format)]
+fn c02_decimal_serialize() {
+	crate::verif::stack_node!(db = nodes::dec_bytes(0));
+	crate::verif::stack_node!(df = nodes::dec_fixed(2, 0));
+	let m: i64 = kani::any();
+	kani::assume(m > -(1i64 << 40) && m < (1i64 << 40));
+	let (r, out) = decimal_serialize_case(db, m as i128);
+	kani::cover!(m == 128);
+	kani::cover!(m == -129);
+	assert!(r.is_ok(), "c02_decimal: conforming decimal rejected");
+	let got = out.bytes();
+	assert!(got.len() >= 2 && got[0] as usize == (got.len() - 1) << 1, "c02_decimal: wrong length prefix");
+	assert!(spec::twos_complement(&got[1..]) == m as i128, "c02_decimal: decimal(bytes) payload decodes to a different number");
+	std::mem::forget(r);
+	let (r, out) = decimal_serialize_case(df, m as i128);
+	if r.is_ok() {
+		assert!(spec::fits_twos_complement(m as i128, 2), "c02_decimal: Ok for a number that does not fit fixed(2)");
+		assert!(out.len == 2 && spec::twos_complement(out.bytes()) == m as i128, "c02_decimal: decimal(fixed) bytes decode to a different number");
+	} else {
+		assert!(!spec::fits_twos_complement(m as i128, 2), "c02_decimal: number fitting fixed(2) rejected");
 	}
 	std::mem::forget(r);
 }
